@@ -111,6 +111,10 @@ let rec obs_sx = function
   | L [A "eqr"; l] -> OEqR (lit_sx l)
   | L [A "eql"; l] -> OEqL (lit_sx l)
   | L [A "ctr"; c] -> OCtr (ctr_sx c)
+  | L [A "eq2"; a; b] -> OEq2 (obs_sx a, obs_sx b)
+  | L [A "concat2"; a; b] -> OConcat2 (obs_sx a, obs_sx b)
+  | L [A "merge2"; a; b] -> OMerge2 (obs_sx a, obs_sx b)
+  | L [A "elemof"; a] -> OElemOf (obs_sx a)
   | L [A "access"; k] -> OAccess (str_sx k)
   | L [A "get"; k] -> OGet (str_sx k)
   | A "fields" -> OFields | A "values" -> OValues | A "values_broken" -> OValues_broken
